@@ -699,6 +699,11 @@ impl TransportService {
             .collect()
     }
 
+    /// Verification hook: number of events waiting in the service's event channel.
+    pub(crate) fn verif_queue_len(&self) -> usize {
+        self.rx.len()
+    }
+
     /// Verification hook: number of armed keep-alive sleeps.
     pub(crate) fn verif_armed_timers(&self) -> usize {
         self.keep_alive_tracker.pending_keep_alive_timeouts.len()
